@@ -4,6 +4,15 @@ use erbium_net::raw::MsgFlags;
 
 pub mod lldppkt;
 
+/// The LLDPDU follows the 14 octet Ethernet header; a shorter frame carries none.
+fn decode_frame(frame: &[u8]) -> Result<lldppkt::LldpPacket, crate::pktparser::ParseError> {
+    use crate::pktparser::Deserialise as _;
+    let pdu = frame
+        .get(14..)
+        .ok_or(crate::pktparser::ParseError::UnexpectedEndOfInput)?;
+    lldppkt::LldpPacket::from_wire(&mut crate::pktparser::Buffer::new(pdu))
+}
+
 pub struct LldpService {
     sock: erbium_net::raw::RawSocket,
 }
@@ -20,10 +29,7 @@ impl LldpService {
             match self.sock.recv_msg(1500, MsgFlags::empty()).await {
                 Err(err) => log::warn!("LLDP Failed to receive frame: {:?}", err),
                 Ok(msg) => {
-                    use crate::pktparser::Deserialise as _;
-                    match lldppkt::LldpPacket::from_wire(&mut crate::pktparser::Buffer::new(
-                        &msg.buffer[14..],
-                    )) {
+                    match decode_frame(&msg.buffer) {
                         Ok(new) => {
                             if prev.is_none() || prev.as_ref().unwrap() != &new {
                                 for i in &new.tlvs {
